@@ -201,7 +201,6 @@ func c04ScTwoWrites(cfg c04Cfg, l1, base, mask, l2 int) {
 	c04WriteAt(fsys, "/f", os.O_CREATE|os.O_RDWR, -1, data1)
 	vp.AllocCap(8)
 	dev.symCap = 8
-	vp.KnownPanic("KF-C04-3", "ext4/file.go:198")
 	c04WriteAt(fsys, "/f", os.O_RDWR, int64(o2), data2)
 	// reference
 	maxR := l1
@@ -276,7 +275,6 @@ func VP_C04_sc_write_past_block() {
 	c04WriteAt(fsys, "/f", os.O_CREATE|os.O_RDWR, -1, data1)
 	vp.AllocCap(8)
 	dev.symCap = 8
-	vp.KnownPanic("KF-C04-3", "ext4/file.go:198")
 	c04WriteAt(fsys, "/f", os.O_RDWR, int64(o2), data2)
 	c04NoPanic()
 	fi, err := fsys.Stat("/f")
